@@ -579,6 +579,25 @@ def run_device(case):
     idx = dev.contains_points(pk, index=True)
     if not np.array_equal(idx, np.where(want)[0]):
         res.violate("device-membership-index-form", detail={"dev": name})
+    # the same probe buffer queried again after it was updated in place (the answer belongs to the points as they are now),
+    # and the buffer itself is never modified by a query
+    buf = pk.copy()
+    for shift in ((0.37, -0.21), (-0.9, 0.55)):
+        buf += np.array(shift)
+        keep2 = ~near_outline(buf, outlines)
+        want2 = pip(buf, dev.film.points)
+        for h in dev.holes:
+            want2 &= ~pip(buf, h.points)
+        before = buf.copy()
+        got2 = dev.contains_points(buf)
+        gotf = dev.film.contains_points(buf)
+        res.count("probe_tests", int(keep2.sum()))
+        if not np.array_equal(buf, before):
+            res.violate("query-modifies-the-probe-points", detail={"dev": name})
+            break
+        if not np.array_equal(got2[keep2], want2[keep2]) or not np.array_equal(gotf[keep2], pip(buf, dev.film.points)[keep2]):
+            res.violate("membership-stale-after-probe-buffer-updated-in-place", n_holes=len(dev.holes), detail={"dev": name})
+            break
 
     def snapshot(d):
         return (d.film.points.copy(), [h.points.copy() for h in d.holes], [t.points.copy() for t in d.terminals],
